@@ -297,6 +297,112 @@ Definition add_annotation (id : Z) (a : annot) (out : list node) : result (list 
   let n := Z.to_nat id in
   Ok (firstn n out ++ [mkNode (n_op nd) (n_deps nd) (n_gdeps nd) (n_annots nd ++ [a]) (n_ty nd)] ++ skipn (S n) out).
 
+(* ---------- the bodies of the gadgets: CustomOperationBody::instantiate ---------- *)
+(* mpc_arithmetic.rs:33 the adder closure of AddMPC::instantiate *)
+Definition adder_body (l r : Z) (is_r_private : bool) (out : list node) : result (list node * Z) :=
+  let* (out1, outputs) :=
+    mapS (fun i out =>
+            let* (o1, a0i) := emit (OTupleGet i) [l] [] out in
+            if is_r_private then
+              let* (o2, a1i) := emit (OTupleGet i) [r] [] o1 in emit OAdd [a0i; a1i] [] o2
+            else if i =? 0 then emit OAdd [a0i; r] [] o1
+            else let* tr := out_ty o1 r in
+                 let* (o2, z) := emit (OZeros tr) [] [] o1 in emit OAdd [a0i; z] [] o2)
+         parties out in
+  emit OCreateTuple outputs [] out1.
+
+(* mpc_arithmetic.rs:102-146 the four cases of SubtractMPC::instantiate *)
+Definition subtract_body (t0 t1 : ty) (i0 i1 : Z) (out : list node) : result (list node * Z) :=
+  match t0, t1 with
+  | TTuple v0, TTuple v1 =>
+      let* _ := check_private_tuple v0 in
+      let* _ := check_private_tuple v1 in
+      let* (out1, outputs) :=
+        mapS (fun i out =>
+                let* (o1, a0i) := emit (OTupleGet i) [i0] [] out in
+                let* (o2, a1i) := emit (OTupleGet i) [i1] [] o1 in
+                emit OSubtract [a0i; a1i] [] o2) parties out in
+      emit OCreateTuple outputs [] out1
+  | TTuple v0, (TScalar _ | TArray _ _) =>
+      let* _ := check_private_tuple v0 in
+      let* (o0, zero) := emit (OZeros t1) [] [] out in
+      let* (out1, outputs) :=
+        mapS (fun i out =>
+                let* (o1, a0i) := emit (OTupleGet i) [i0] [] out in
+                if i =? 0 then emit OSubtract [a0i; i1] [] o1 else emit OSubtract [a0i; zero] [] o1) parties o0 in
+      emit OCreateTuple outputs [] out1
+  | (TScalar _ | TArray _ _), TTuple v1 =>
+      let* _ := check_private_tuple v1 in
+      let* (o0, zero) := emit (OZeros t0) [] [] out in
+      let* (out1, outputs) :=
+        mapS (fun i out =>
+                let* (o1, a1i) := emit (OTupleGet i) [i1] [] out in
+                if i =? 0 then emit OSubtract [i0; a1i] [] o1 else emit OSubtract [zero; a1i] [] o1) parties o0 in
+      emit OCreateTuple outputs [] out1
+  | (TScalar _ | TArray _ _), (TScalar _ | TArray _ _) => emit OSubtract [i0; i1] [] out
+  | _, _ => Panic
+  end.
+
+(* mpc_arithmetic.rs:173 mixed_product *)
+Definition mixed_product_body (prim : op) (node0 node1 : Z) (swap_flag : bool) (out : list node) : result (list node * Z) :=
+  let* (out1, outputs) :=
+    mapS (fun i out =>
+            if swap_flag then
+              let* (o1, share) := emit (OTupleGet i) [node1] [] out in emit prim [node0; share] [] o1
+            else
+              let* (o1, share) := emit (OTupleGet i) [node0] [] out in emit prim [share; node1] [] o1)
+         parties out in
+  emit OCreateTuple outputs [] out1.
+
+(* mpc_arithmetic.rs:197 private_product *)
+Definition private_product_body (prim : op) (node0 node1 : Z) (out : list node) : result (list node * Z) :=
+  let* (out1, shares) :=
+    mapS (fun i out =>
+            let* (o1, s0) := emit (OTupleGet i) [node0] [] out in
+            let* (o2, s1) := emit (OTupleGet i) [node1] [] o1 in
+            Ok (o2, (s0, s1))) parties out in
+  let shares0 := map fst shares in
+  let shares1 := map snd shares in
+  let* (out2, z_shares) :=
+    mapS (fun i out =>
+            let ip1 := (i + 1) mod 3 in
+            let* x_i := znth shares0 i in let* x_ip1 := znth shares0 ip1 in
+            let* y_i := znth shares1 i in let* y_ip1 := znth shares1 ip1 in
+            let* (o1, z1) := emit OAdd [y_i; y_ip1] [] out in
+            let* (o2, z2) := emit prim [x_i; z1] [] o1 in
+            let* (o3, z3) := emit prim [x_ip1; y_i] [] o2 in
+            emit OAdd [z2; z3] [] o3) parties out1 in
+  emit OCreateTuple z_shares [] out2.
+
+(* AddMPC::instantiate :18, SubtractMPC::instantiate :86, instantiate_bilinear_product :225: the
+   instantiated graph (its nodes and the id of its output node) on the argument types *)
+Definition gadget_body (g : gadget) (ts : list ty) : result (list node * Z) :=
+  match ts with
+  | [t0; t1] =>
+      let* (o1, i0) := emit (OInput t0) [] [] [] in
+      let* (o2, i1) := emit (OInput t1) [] [] o1 in
+      match g with
+      | GSub => subtract_body t0 t1 i0 i1 o2
+      | _ =>
+          match t0, t1 with
+          | TTuple v0, TTuple v1 =>
+              let* _ := check_private_tuple v0 in
+              let* _ := check_private_tuple v1 in
+              match g with GBil prim => private_product_body prim i0 i1 o2 | _ => adder_body i0 i1 true o2 end
+          | TTuple v0, (TScalar _ | TArray _ _) =>
+              let* _ := check_private_tuple v0 in
+              match g with GBil prim => mixed_product_body prim i0 i1 false o2 | _ => adder_body i0 i1 false o2 end
+          | (TScalar _ | TArray _ _), TTuple v1 =>
+              let* _ := check_private_tuple v1 in
+              match g with GBil prim => mixed_product_body prim i0 i1 true o2 | _ => adder_body i1 i0 false o2 end
+          | (TScalar _ | TArray _ _), (TScalar _ | TArray _ _) =>
+              match g with GBil prim => emit prim [i0; i1] [] o2 | _ => emit OAdd [i0; i1] [] o2 end
+          | _, _ => Panic
+          end
+      end
+  | _ => Err
+  end.
+
 (* ---------- mpc_compiler.rs:416 the apply_op closure ---------- *)
 (* the dependencies of share i: :437-452 *)
 Fixpoint share_vec (priv : list Z) (i : Z) (olds news : list Z) (out : list node) : result (list node * list Z) :=
